@@ -102,6 +102,12 @@ def populate_world_from_dict(world: World, world_dict: dict):
             processor_dict['type'](*processor_dict.get('args', []),
                                    **processor_dict.get('kwargs', {})))
 
+    # Identifiers given explicitly belong to their entities: an entity
+    # listed without one must not be handed an identifier that a later
+    # entry asks for (the two entities would be merged into one)
+    reserved = {entity_dict['id'] for entity_dict in entities
+                if entity_dict.get('id', None) is not None}
+
     for entity_dict in entities:
         entity_id = entity_dict.get('id', None)
 
@@ -110,6 +116,11 @@ def populate_world_from_dict(world: World, world_dict: dict):
             args = component_dict.get('args', [])
             kwargs = component_dict.get('kwargs', {})
             components.append(component_dict['type'](*args, **kwargs))
+
+        if entity_id is None and reserved:
+            entity_id = next(candidate for candidate in world.id_generator
+                             if candidate not in reserved
+                             and not world.get_components(candidate))
 
         world.create_entity(*components, entity_id=entity_id)
 
